@@ -61,10 +61,11 @@ Proof.
     + cbn in Hw. destruct v; try (apply IH; [exact Hw | exact He]). rewrite wtb_absent in Hw. discriminate.
     + destruct k as [w|w| | | |w| |k'|k'|k'|s' k']; cbn in Hw; try discriminate.
       * destruct v; try discriminate. cbn in He. destruct (int_ok w z); discriminate.
-      * destruct v; try discriminate.
+      * destruct v; try discriminate. cbn in He. destruct (uint_ok w z); discriminate.
       * destruct k'; try discriminate; destruct v; try discriminate; try reflexivity;
           destruct v; try discriminate; cbn in He; try discriminate.
-        destruct (int_ok w z); discriminate.
+        -- destruct (int_ok w z); discriminate.
+        -- destruct (uint_ok w z); discriminate.
 Qed.
 
 (* ---- the round trip, without the storage step ---- *)
@@ -103,17 +104,16 @@ Proof.
         destruct k'; try discriminate; reflexivity.
       * destruct v; try exact He; rewrite wtb_absent in Hw; discriminate.
     + (* unixtime: seconds -> instant -> seconds *)
+      assert (Hdiv : forall z, z * giga / giga = z) by (intro; apply Z.div_mul; unfold giga; lia).
       destruct k as [w|w| | | |w| |k'|k'|k'|s' k']; cbn in Hk; try discriminate.
       * destruct v; cbn in Hw; try discriminate. cbn in He.
-        destruct (int_ok w z); inversion He. cbn. f_equal. apply Z.div_mul. unfold giga; lia.
-      * destruct v; cbn in Hw; try discriminate; cbn in He; discriminate.
-      * destruct k'; try discriminate.
-        -- destruct v; cbn in Hw; try discriminate.
-           ++ cbn in He. inversion He. reflexivity.
-           ++ destruct v; try discriminate. cbn in He.
-              destruct (int_ok w z); inversion He. cbn. do 2 f_equal. apply Z.div_mul. unfold giga; lia.
-        -- destruct v; cbn in Hw; try discriminate; cbn in He; try discriminate;
-             destruct v; discriminate.
+        destruct (int_ok w z); inversion He. cbn. rewrite Hdiv. reflexivity.
+      * destruct v; cbn in Hw; try discriminate. cbn in He.
+        destruct (uint_ok w z); inversion He. cbn. rewrite Hdiv. reflexivity.
+      * destruct k'; try discriminate; destruct v; cbn in Hw; try discriminate;
+          try (cbn in He; inversion He; reflexivity); destruct v; try discriminate; cbn in He.
+        -- destruct (int_ok w z); inversion He. cbn. rewrite Hdiv. reflexivity.
+        -- destruct (uint_ok w z); inversion He. cbn. rewrite Hdiv. reflexivity.
 Qed.
 
 (* what enc produces agrees with the affinity of the column the dialector declares for the kind *)
@@ -162,19 +162,11 @@ Section Store.
 End Store.
 
 (* ---- representable values are accepted ---- *)
-Fixpoint signed_unix (k : kind) : bool :=
-  match k with
-  | KPtr k' | KNull k' | KCustom k' => signed_unix k'
-  | KSer SUnix k' => match k' with KInt _ | KPtr (KInt _) => true | _ => false end
-  | KSer _ k' => signed_unix k'
-  | _ => true
-  end.
-
 Lemma representable_enc : forall k v,
-  wfk k = true -> signed_unix k = true -> wtb k v = true -> in_range k v = true ->
+  wfk k = true -> wtb k v = true -> in_range k v = true ->
   exists d, enc k v = Some d.
 Proof.
-  induction k as [w|w| | | |w| |k IH|k IH|k IH|s k IH]; intros v Hk Hs Hw Hr;
+  induction k as [w|w| | | |w| |k IH|k IH|k IH|s k IH]; intros v Hk Hw Hr;
     try (destruct v; cbn in Hw; try discriminate; cbn; eexists; reflexivity).
   - destruct v; cbn in Hw; try discriminate. cbn in Hr. cbn. rewrite Hr. eexists; reflexivity.
   - destruct v; cbn in Hw; try discriminate. cbn in Hr. cbn. rewrite Hr. eexists; reflexivity.
@@ -184,10 +176,10 @@ Proof.
   - destruct v; cbn in Hw; try discriminate; cbn.
     + eexists; reflexivity.
     + apply andb_prop in Hw. destruct Hw as [Hw _]. apply IH; auto.
-  - cbn in Hk, Hs, Hw.
+  - cbn in Hk, Hw.
     destruct v; try (cbn in Hr; cbn [enc]; apply IH; assumption).
     rewrite wtb_absent in Hw. discriminate.
-  - destruct s; cbn in Hk, Hs.
+  - destruct s; cbn in Hk.
     + destruct k as [ | | |  | | | |k'| | | ]; try discriminate; [|destruct k'; try discriminate];
         destruct v; cbn in Hw; try discriminate; try (cbn; eexists; reflexivity).
       destruct v; cbn in Hw; try discriminate. cbn; eexists; reflexivity.
@@ -196,9 +188,9 @@ Proof.
       destruct v; cbn in Hw; try discriminate. cbn; eexists; reflexivity.
     + destruct k as [w|w| | | |w| |k'|k'|k'|s' k']; try discriminate.
       * destruct v; cbn in Hw; try discriminate. cbn in Hr. cbn. rewrite Hr. eexists; reflexivity.
-      * destruct k'; try discriminate. destruct v; cbn in Hw; try discriminate.
-        -- cbn. eexists; reflexivity.
-        -- destruct v; try discriminate. cbn in Hr. cbn. rewrite Hr. eexists; reflexivity.
+      * destruct v; cbn in Hw; try discriminate. cbn in Hr. cbn. rewrite Hr. eexists; reflexivity.
+      * destruct k'; try discriminate; destruct v; cbn in Hw; try discriminate;
+          try (cbn; eexists; reflexivity); destruct v; try discriminate; cbn in Hr; cbn; rewrite Hr; eexists; reflexivity.
 Qed.
 
 (* ------------------------------------------------------------------ *)
